@@ -25,8 +25,12 @@ def leaf_types(s, path="", out=None):
 
 
 def make_case(cid, s, flags=(), comp=None, mode="list", rerun=False):
-    oracle = ('package cs\n\nimport "verifcases/vo"\n\nfunc VerifObserve(emit func(string, string)) {\n'
-              '\tvo.ObserveCtor(emit, New%s)\n}\n' % newgen.instantiate(s))
+    # a foreign embedded struct whose package is NAMED like the package generated into: the pair gets a name of its own
+    # (every other case package is called cs, and goimports finds a package by its name)
+    same = any(d.get("samename") for d in newgen.embed_decls(s))
+    pkg = ("q" + "".join(ch for ch in cid if ch.isalnum())) if same else "cs"
+    oracle = ('package %s\n\nimport "verifcases/vo"\n\nfunc VerifObserve(emit func(string, string)) {\n'
+              '\tvo.ObserveCtor(emit, New%s)\n}\n' % (pkg, newgen.instantiate(s)))
     cdecls, cnames = (comp or ([], [], []))[:2]
     # multi-type run: the companion types come first; what they carry must not reach T
     args = ["new"] + list(flags) + ["-type=" + ",".join(cnames + [s["name"]])]
@@ -37,10 +41,12 @@ def make_case(cid, s, flags=(), comp=None, mode="list", rerun=False):
         args = ["new"] + list(flags) + ["-type=*"]
     # -type=* is the go:generate mode: the all-in-one file is named after $GOFILE
     run = {"args": args}
-    files = newgen.case_files("cs", cdecls + [s], cid)
+    files = newgen.case_files(pkg, cdecls + [s], cid)
+    if same and "sub/sub.go" in files:
+        files["sub/sub.go"] = files["sub/sub.go"].replace("package cs\n", "package %s\n" % pkg, 1)
     if mode == "star":
         # -type=* is the go:generate mode: the all-in-one file is named after the file that carries the directive
-        files["t.go"] = files["t.go"].replace("package cs\n", "package cs\n\n//go:generate shoot " + " ".join(args) + "\n", 1)
+        files["t.go"] = files["t.go"].replace("package %s\n" % pkg, "package %s\n\n//go:generate shoot " % pkg + " ".join(args) + "\n", 1)
     return {"id": cid, "spec": s, "files": files,
             "runs": [run, dict(run)] if rerun else [run], "oracle": {".": oracle},
             "sexp": newgen.ctor_sexp(cid, s), "cmd": "shoot " + " ".join(args),
@@ -92,7 +98,7 @@ def gen_cases(ctx):
             opts = {"keyword": 0.5}
         if r > 0.93:
             opts = dict(opts, generic=0.0)
-        opts = dict(opts, crosspkg=0.12, generic_embed=0.12, selfembed=0.06, types_extra=newgen.EXTRA_TYPES)
+        opts = dict(opts, crosspkg=0.12, samename=0.3, generic_embed=0.12, selfembed=0.06, types_extra=newgen.EXTRA_TYPES)
         s = g.top("T", **opts)
         if r > 0.93:
             # generic struct with a constraint that is not a plain identifier (repaired by f987a47; asserted)
@@ -159,6 +165,10 @@ def run_cases(ctx, cases):
             for n in fnames:
                 d.pop("sel:" + n, None)
                 d.pop("sel:sub." + n, None)
+            for k in list(d):
+                mm = re.match(r"def:time\.Duration\((\d+)\)$", d[k]) if isinstance(d[k], str) else None
+                if mm:
+                    d[k] = "def:" + mm.group(1)      # the oracle reads the number back
     return impl, model
 
 
